@@ -20,6 +20,21 @@ fn main() {
 
     let reply = std::fs::read(format!("{logdir}/{name}.reply")).unwrap_or_default();
 
+    if behaviour == "floodfirst" {
+        // Writes far more than a pipe buffer to stdout *before* reading any of its input (a streaming generator such as `cat`
+        // behaves like this as soon as the request is larger than the pipe buffer), then reads its input and exits normally.
+        let chunk = vec![b'x'; 65536];
+        let mut out = std::io::stdout();
+        for _ in 0..6 {
+            if out.write_all(&chunk).is_err() {
+                std::process::exit(0);
+            }
+        }
+        let _ = out.flush();
+        let mut request = Vec::new();
+        let _ = std::io::stdin().read_to_end(&mut request);
+        std::process::exit(0);
+    }
     if behaviour == "noread" {
         // Exit without reading stdin at all (the reply is still written, so only the unread request is at fault).
         let _ = std::io::stdout().write_all(&reply);
